@@ -90,6 +90,12 @@ func (v varReader) Read(r io.Reader) ([]byte, error) {
 			return nil, fmt.Errorf("read %d/%d: %s",
 				i+1, size, err)
 		}
+		if len(data) == 0 {
+			// zero-width element type (void, empty tuple): the
+			// remaining elements are empty as well, do not loop
+			// up to 2^32 times on a 4-byte input.
+			break
+		}
 		err = basic.WriteN(&buf, data, len(data))
 		if err != nil {
 			return nil, fmt.Errorf("read %d/%d: %s",
